@@ -9,8 +9,9 @@
    [irun].
 
    Signature verification and hashing are parameters: the [env] record of Script/Exec.v
-   ([e_sigok key sig] stands for `verify_sersig`: parse the signature for the key's type and
-   call the verification closure).  [kp] stands for `bitcoin_key_from_slice` (parsing a
+   ([e_sigok key sig] stands for `verify_sersig`: parse the signature for the key's type --
+   since fix b1ce3b38 a 65-byte Schnorr signature ending in 0x00 is refused -- and call the
+   verification closure).  [kp] stands for `bitcoin_key_from_slice` (parsing a
    pushed public key for the spend's signature type) in evaluate_pkh. *)
 From Verif Require Export Ast ExecTrace.
 Local Open Scope N_scope.
@@ -78,18 +79,23 @@ Definition evaluate_pkh (e : env) (kp : bytes -> bool) (h : bytes) (st : astack)
   | _ => EvErr EStackEnd
   end.
 
-(* Stack::evaluate_after: absolute::LockTime comparison, units must agree.
-   (Nothing about the input's nSequence: see Properties/C13.v, interp_sound_refuted.) *)
+(* Stack::evaluate_after (after fix 1fe09c47): BIP65 -- fails when the input is final
+   (`!sequence.enables_absolute_lock_time()`), tested first; then the absolute::LockTime
+   comparison, units must agree. *)
 Definition evaluate_after (e : env) (t : N) (st : astack) : evres :=
-  if Bool.eqb (t <? LOCKTIME_THRESHOLD) (e_locktime e <? LOCKTIME_THRESHOLD)
+  if e_sequence e =? SEQ_FINAL then EvErr EAbsNotMet
+  else if Bool.eqb (t <? LOCKTIME_THRESHOLD) (e_locktime e <? LOCKTIME_THRESHOLD)
   then if t <=? e_locktime e then EvOk (ESat :: st) (CsAfter t) else EvErr EAbsNotMet
   else EvErr EAbsInvalid.
 
-(* Stack::evaluate_older: Sequence::to_relative_lock_time + relative::LockTime::is_implied_by.
-   (Nothing about the transaction version.) *)
+(* The Older arm of iter_next (after fix 9d1ff3e4): `if !self.csv_enabled` -- the spending
+   transaction's version, as an unsigned number, is below 2 (BIP112; only Interpreter::iter sees
+   the transaction, iter_custom / iter_assume_sigs assume version >= 2) -- then
+   Stack::evaluate_older: Sequence::to_relative_lock_time + relative::LockTime::is_implied_by. *)
 Definition evaluate_older (e : env) (t : N) (st : astack) : evres :=
   let s := e_sequence e in
-  if negb (N.land s SEQ_DISABLE =? 0) then EvErr ERelDisabled
+  if e_txversion e <? 2 then EvErr ERelDisabled
+  else if negb (N.land s SEQ_DISABLE =? 0) then EvErr ERelDisabled
   else if (N.land t SEQ_TYPE =? N.land s SEQ_TYPE) && (N.land t SEQ_MASK <=? N.land s SEQ_MASK)
        then EvOk (ESat :: st) (CsOlder t) else EvErr ERelNotMet.
 
